@@ -397,4 +397,7 @@ func runC02(c *eng.Ctx) {
 		c.Check(ok == 2, fn.Name()+" carries the replicator's (leader, epoch)", p.Pos(fn.Pos()), "Leader: r.leader, LeaderEpoch: r.epoch", "the ISR change request does not carry the replicator's own leader and epoch: the controller's staleness fence is bypassed or always fails")
 	}
 	c.Floor(7)
+	// ---- R15.8 (shared) the configuration keys this property's switches hang on reach their fields
+	ruleConfigWiring(c, "R15.8")
+
 }
